@@ -476,6 +476,12 @@ func (c *Case) classes(res *callResult) []string {
 	if c.Cfg.Docs != "oci" {
 		cl = append(cl, "blobstmt="+c.Cfg.BlobStmt)
 	}
+	if c.Cfg.BadDoc != "" {
+		cl = append(cl, "invalid-policy-document="+c.Cfg.BadDoc)
+		if c.Cfg.Docs == "both" {
+			cl = append(cl, "invalid-policy-document-next-to-a-valid-one")
+		}
+	}
 	if !res.called {
 		return append(cl, "construct=error")
 	}
@@ -500,12 +506,6 @@ func (c *Case) classes(res *callResult) []string {
 	}
 	if c.Cfg.Level == "skip" {
 		cl = append(cl, "skip-level:"+c.Entry)
-	}
-	if c.Cfg.BadDoc != "" {
-		cl = append(cl, "invalid-policy-document="+c.Cfg.BadDoc)
-		if c.Cfg.Docs == "both" {
-			cl = append(cl, "invalid-policy-document-next-to-a-valid-one")
-		}
 	}
 	if c.Cfg.RevWiring != "" {
 		cl = append(cl, "revocation-wiring="+c.Cfg.RevWiring)
